@@ -188,6 +188,7 @@ static void run_spin_scenario(const char *mode, long long idx, int nthreads, int
 	rec.counters["sched_points"] += w.steps; rec.counters["sched_switches"] += w.switches;
 	{ static uint64_t max_steps = 0; if(out.kind == sched::Outcome::Ok && w.steps > max_steps) { max_steps = w.steps; rec.notes[std::string("max_points_in_a_completing_schedule:shard") + std::to_string(opt.shard)] = std::to_string(max_steps) + " (budget " + std::to_string(w.step_limit) + ")"; } }
 	std::string tail; for(size_t i = w.trace.size() > 40 ? w.trace.size() - 40 : 0; i < w.trace.size(); i++) tail += w.trace[i] + " ";
+	if(idx == 1) sample(std::string(mode) + strf(" schedule #1 (%d threads x %d pairs) observed points: ", nthreads, pairs) + tail.substr(0, 900), 40);
 	auto report = [&](const std::string &key, const std::string &what) { case_detail("%s threads=%d pairs=%d trace: %s", LockName<L>::name, nthreads, pairs, tail.c_str()); violation(std::string("C12:sched:") + LockName<L>::name + ":" + key, what); };
 	if(mon.bad) { auto p = mon.why.find('|'); report(mon.why.substr(0, p), mon.why.substr(p + 1)); }
 	else if(out.kind == sched::Outcome::Deadlock || out.kind == sched::Outcome::Livelock) report(out.kind == sched::Outcome::Deadlock ? "deadlock" : "no-hand-over", std::string(LockName<L>::name) + ": the lock is never acquired again although its holder released it / nobody holds it: " + out.detail);
